@@ -118,7 +118,7 @@ def gen_program(rng: random.Random, handles: str, resources=("r0",), ntasks=None
     holds one container object twice does not hash like an equal value built from distinct objects
     (known finding, exercised by its own witness in harness/props/c07.py).
     """
-    n = ntasks or rng.randint(3, 6)
+    n = ntasks or rng.choice([3, 4, 4, 5, 5, 6])
     arity = [0] + [rng.randint(0, 2) for _ in range(n - 1)]
     prog: list = [None] * n
     for i in range(n - 1, -1, -1):          # callees first: their bodies are known when task i is written
@@ -160,7 +160,7 @@ def gen_program(rng: random.Random, handles: str, resources=("r0",), ntasks=None
             return ce
 
         def body():
-            if not callees or rng.random() < 0.15:
+            if not callees or (i > 0 and rng.random() < 0.15):
                 k = rng.random()
                 if arity[i] and k < 0.5:
                     q = rng.randrange(arity[i])
